@@ -25,7 +25,16 @@ fn sizes(ctx: &Ctx) -> Vec<usize> {
             }
         }
     }
+    // numbers beyond the ladder (byte limits such as `1 << 20`): once each as a text of more than
+    // that many BYTES (plain words average a little over four bytes), not on the dense draws
+    if !ctx.dense {
+        let big: Vec<usize> = crate::gen::dict().numbers.iter().copied().filter(|n| *n > cap && *n <= 5_000_000).collect();
+        for n in big.iter().rev().take(if ctx.thorough { 4 } else { 2 }) {
+            v.push(n / 3 + 1_000);
+        }
+    }
     v.sort();
+    v.dedup();
     v
 }
 
@@ -114,6 +123,10 @@ fn long_cases_inner(ctx: &mut Ctx) {
                 if prop == "C02" {
                     o.alg = 'f';
                 }
+                if prop == "C09" && n > 100_000 {
+                    // beyond a byte limit named in the source: with the crate's default algorithm
+                    o.alg = Opt::crate_default(w).alg;
+                }
                 let d = format!("wrap(text of {}, {})", desc_n, o.show());
                 ctx.risky(&d);
                 let (lines, _) = real_wrap(&t, &o);
@@ -146,6 +159,22 @@ fn long_cases_inner(ctx: &mut Ctx) {
                 if ls.len() < t.split('\n').count() {
                     ctx.fail("never fewer lines than the input", d, None);
                     continue;
+                }
+                // paragraphs wrap independently: with empty indents the lines of the whole text are
+                // the lines of its paragraphs, one after the other
+                if prop == "C09" && o.ii.is_empty() && o.si.is_empty() {
+                    let mut per: Vec<String> = Vec::new();
+                    let mut okp = true;
+                    for para in t.split('\n') {
+                        match real_wrap(para, &o).0 {
+                            Some(pl) => per.extend(pl.into_iter().map(|l| l.s)),
+                            None => { okp = false; break; }
+                        }
+                    }
+                    if !okp || per.len() != ls.len() || per.iter().zip(ls.iter()).any(|(a, b)| *a != b.s) {
+                        ctx.fail("the lines of a text are the lines of its paragraphs (paragraphs wrap independently)", d, None);
+                        continue;
+                    }
                 }
                 if prop == "C02" && ls.iter().any(|l| dw(&l.s) > o.width && l.s.contains(' ')) {
                     ctx.fail("line fits the width unless it is one unbreakable fragment", d, None);
